@@ -188,6 +188,12 @@ class BufferedFile(ClosingContextManager):
                     new_data = self._read(self._DEFAULT_BUFSIZE)
                 except EOFError:
                     new_data = None
+                except Exception:
+                    # Nothing is returned: keep what was fetched so far as
+                    # read-ahead, so a caller that retries loses no data.
+                    self._rbuffer = bytes(result)
+                    self._pos -= len(result)
+                    raise
                 if (new_data is None) or (len(new_data) == 0):
                     break
                 result.extend(new_data)
@@ -282,6 +288,11 @@ class BufferedFile(ClosingContextManager):
                 new_data = self._read(n)
             except EOFError:
                 new_data = None
+            except Exception:
+                # Nothing is returned: keep what was fetched so far as
+                # read-ahead, so a caller that retries loses no data.
+                self._rbuffer = line
+                raise
             if (new_data is None) or (len(new_data) == 0):
                 self._rbuffer = bytes()
                 self._pos += len(line)
